@@ -239,6 +239,44 @@ func e2eRefusals(c *e2eCtx) error {
 			proj.WriteConfig(s.dir, s.cfg)
 			return err == nil
 		}, false},
+		{"clean-unparsable-marked-file", []string{"clean"}, func(s *scenario, r *rand.Rand) bool {
+			if run := proj.RunGoat(c.goat, s.dir, nil, "track"); run.Exit != 0 {
+				return false
+			}
+			// a hand-marked file that does not parse, sorted after the instrumented ones
+			return os.WriteFile(filepath.Join(s.dir, "pkg", "l0", "zz_broken.go"), []byte("package l0\n\n// +goat:insert\nfunc Broken( {\n"), 0644) == nil
+		}, false},
+		{"patch-unparsable-marked-file", []string{"patch"}, func(s *scenario, r *rand.Rand) bool {
+			if run := proj.RunGoat(c.goat, s.dir, nil, "track"); run.Exit != 0 {
+				return false
+			}
+			return os.WriteFile(filepath.Join(s.dir, "pkg", "l0", "zz_broken.go"), []byte("package l0\n\n// +goat:insert\nfunc Broken( {\n"), 0644) == nil
+		}, false},
+		{"nothing-to-instrument-comments-only", []string{"track"}, func(s *scenario, r *rand.Rand) bool {
+			// HEAD differs from the old revision only in comments and a type declaration; the printer
+			// settings differ from gofmt's, so re-printing a file would change its bytes
+			if s.cfg.Old == "INIT" {
+				return false
+			}
+			t := map[string]string{}
+			n := 0
+			for k, v := range s.newTree {
+				t[k] = v
+				if strings.HasSuffix(k, ".go") && n < 3 && strings.Contains(v, "\nfunc ") {
+					t[k] = strings.Replace(v, "\nfunc ", "\n// reviewed\nfunc ", 1) + "\n// Extra is only a type.\ntype Extra" + fmt.Sprint(n) + " struct{ A int }\n"
+					n++
+				}
+			}
+			if _, err := proj.Commit(s.dir, t, 1700000200, "comments only"); err != nil {
+				return false
+			}
+			cfg := s.cfg
+			cfg.Old = s.newRev
+			cfg.PrinterModes = []string{"useSpaces"}
+			cfg.Tabwidth = 4
+			s.cfg = cfg
+			return proj.WriteConfig(s.dir, cfg) == nil
+		}, true},
 		{"nothing-to-instrument", []string{"track"}, func(s *scenario, r *rand.Rand) bool {
 			if s.cfg.Old == "INIT" {
 				return false
@@ -255,33 +293,36 @@ func e2eRefusals(c *e2eCtx) error {
 		over   map[string]bool
 		reason string
 	}{
-		"not-a-go-module":              {map[string]bool{"goMod": false}, "not-go-module"},
-		"not-a-git-repository":         {map[string]bool{"dotGit": false}, "not-git-repo"},
-		"missing-config-track":         {map[string]bool{"configExists": false}, "config-missing"},
-		"missing-config-patch":         {map[string]bool{"configExists": false}, "config-missing"},
-		"missing-config-clean":         {map[string]bool{"configExists": false}, "config-missing"},
-		"invalid-granularity":          {map[string]bool{"configValid": false}, "config-invalid"},
-		"invalid-precision":            {map[string]bool{"configValid": false}, "config-invalid"},
-		"invalid-datatype":             {map[string]bool{"configValid": false}, "config-invalid"},
-		"invalid-printer-mode":         {map[string]bool{"configValid": false}, "config-invalid"},
-		"malformed-yaml":               {map[string]bool{"configParses": false}, "config-invalid"},
-		"init-existing-config":         {map[string]bool{}, "config-exists"},
-		"init-invalid-granularity":     {map[string]bool{"force": true, "initFlagsValid": false}, "config-invalid"},
-		"init-invalid-precision":       {map[string]bool{"force": true, "initFlagsValid": false}, "config-invalid"},
-		"init-invalid-datatype-nofile": {map[string]bool{"configExists": false, "initFlagsValid": false}, "config-invalid"},
-		"unresolvable-old-revision":    {map[string]bool{"oldResolves": false}, "old-unresolvable"},
-		"unresolvable-new-revision":    {map[string]bool{"newResolves": false}, "new-unresolvable"},
-		"new-revision-not-head":        {map[string]bool{"newIsHead": false}, "new-not-head"},
-		"uncommitted-change":           {map[string]bool{"worktreeClean": false}, "uncommitted"},
-		"staged-change":                {map[string]bool{"worktreeClean": false}, "uncommitted"},
-		"staged-new-file":              {map[string]bool{"worktreeClean": false}, "uncommitted"},
-		"already-instrumented":         {map[string]bool{"generatedExists": true}, "already-instrumented"},
-		"changed-file-does-not-parse":  {map[string]bool{"changedFilesParse": false}, "parse-error"},
-		"no-main-package":              {map[string]bool{"hasMain": false}, "no-main"},
-		"no-main-package-patch":        {map[string]bool{"hasMain": false}, "no-main"},
-		"nothing-to-instrument":        {map[string]bool{"hasPoints": false}, ""},
-		"patch-without-markers":        {map[string]bool{"hasMarkers": false}, ""},
-		"clean-without-artefacts":      {map[string]bool{"hasMarkers": false}, ""},
+		"not-a-go-module":                     {map[string]bool{"goMod": false}, "not-go-module"},
+		"not-a-git-repository":                {map[string]bool{"dotGit": false}, "not-git-repo"},
+		"missing-config-track":                {map[string]bool{"configExists": false}, "config-missing"},
+		"missing-config-patch":                {map[string]bool{"configExists": false}, "config-missing"},
+		"missing-config-clean":                {map[string]bool{"configExists": false}, "config-missing"},
+		"invalid-granularity":                 {map[string]bool{"configValid": false}, "config-invalid"},
+		"invalid-precision":                   {map[string]bool{"configValid": false}, "config-invalid"},
+		"invalid-datatype":                    {map[string]bool{"configValid": false}, "config-invalid"},
+		"invalid-printer-mode":                {map[string]bool{"configValid": false}, "config-invalid"},
+		"malformed-yaml":                      {map[string]bool{"configParses": false}, "config-invalid"},
+		"init-existing-config":                {map[string]bool{}, "config-exists"},
+		"init-invalid-granularity":            {map[string]bool{"force": true, "initFlagsValid": false}, "config-invalid"},
+		"init-invalid-precision":              {map[string]bool{"force": true, "initFlagsValid": false}, "config-invalid"},
+		"init-invalid-datatype-nofile":        {map[string]bool{"configExists": false, "initFlagsValid": false}, "config-invalid"},
+		"unresolvable-old-revision":           {map[string]bool{"oldResolves": false}, "old-unresolvable"},
+		"unresolvable-new-revision":           {map[string]bool{"newResolves": false}, "new-unresolvable"},
+		"new-revision-not-head":               {map[string]bool{"newIsHead": false}, "new-not-head"},
+		"uncommitted-change":                  {map[string]bool{"worktreeClean": false}, "uncommitted"},
+		"staged-change":                       {map[string]bool{"worktreeClean": false}, "uncommitted"},
+		"staged-new-file":                     {map[string]bool{"worktreeClean": false}, "uncommitted"},
+		"already-instrumented":                {map[string]bool{"generatedExists": true}, "already-instrumented"},
+		"changed-file-does-not-parse":         {map[string]bool{"changedFilesParse": false}, "parse-error"},
+		"no-main-package":                     {map[string]bool{"hasMain": false}, "no-main"},
+		"no-main-package-patch":               {map[string]bool{"hasMain": false}, "no-main"},
+		"nothing-to-instrument":               {map[string]bool{"hasPoints": false}, ""},
+		"nothing-to-instrument-comments-only": {map[string]bool{"hasPoints": false}, ""},
+		"clean-unparsable-marked-file":        {map[string]bool{"changedFilesParse": false, "generatedExists": true}, "parse-error"},
+		"patch-unparsable-marked-file":        {map[string]bool{"changedFilesParse": false, "generatedExists": true}, "parse-error"},
+		"patch-without-markers":               {map[string]bool{"hasMarkers": false}, ""},
+		"clean-without-artefacts":             {map[string]bool{"hasMarkers": false}, ""},
 	}
 	flagOrder := []string{"goMod", "dotGit", "configExists", "configParses", "configValid", "force", "initFlagsValid", "generatedExists", "isInit",
 		"worktreeClean", "oldResolves", "newResolves", "newIsHead", "changedFilesParse", "hasMain", "hasPoints", "hasMarkers"}
